@@ -8,6 +8,13 @@ sys.path.insert(0, os.path.dirname(os.path.dirname(os.path.abspath(__file__))))
 
 def main():
     args = sys.argv[1:]
+    if args == ['--warm']:
+        from checks.lib import core
+        log = []
+        names = [n for n in sorted(os.listdir(os.path.join(core.VERIF, 'harness', 'go')))
+                 if os.path.isdir(os.path.join(core.VERIF, 'harness', 'go', n)) and n.startswith('verif')]
+        print(core.build_go(names + ['k8snetpolicy'], log), log)
+        sys.exit(0)
     if len(args) == 2 and args[0] == '--replay':
         payload = json.load(open(args[1]))
         prop = payload['property']
